@@ -84,6 +84,9 @@ type Exec struct {
 	W  *Worker
 	tb *TB
 
+	fmtSym   Str // symbolic Error()/String() text of the operand toNative last gave up on
+	fmtSymOK bool
+
 	prefix []Decision
 	pos    int
 	taken  []Decision
